@@ -151,6 +151,12 @@ impl Monitor for Mon {
                                         return Some(Violation::new("C11.valid-setting-not-applied", "cflist-frequency", format!("CFList channel {} = {f} Hz is valid for {region:?} but the device has {:?}", jn + i, ch)));
                                     }
                                     stats.bump("probe.cflist-channel-applied");
+                                } else if f == 0 {
+                                    // 0 marks the position as unused in the new session's channel list
+                                    if let Some(c) = ch {
+                                        return Some(Violation::new("C11.valid-setting-not-applied", "cflist-unused-entry", format!("CFList entry for channel {} is 0 (unused) but the device still has {} Hz there", jn + i, c.freq)));
+                                    }
+                                    stats.bump("probe.cflist-unused-entry-empty");
                                 } else if f != 0 && ch.map(|c| c.freq) == Some(f) {
                                     return Some(Violation::new("C11.invalid-setting-applied", "cflist-frequency", format!("CFList channel {} = {f} Hz is outside the band of {region:?} but was installed", jn + i)));
                                 }
@@ -262,7 +268,7 @@ impl Property for C11 {
     }
     fn assumptions(&self) -> Vec<String> {
         vec![
-            "RX2 data rates that RP002 defines but this stack does not implement (or that are uplink-only), type-1 CFLists in dynamic regions, type-0 CFLists in fixed regions, zero CFList frequencies and channel masks with fewer than two 125 kHz channels may be applied or ignored".into(),
+            "RX2 data rates that RP002 defines but this stack does not implement (or that are uplink-only), type-1 CFLists in dynamic regions, type-0 CFLists in fixed regions and channel masks with fewer than two 125 kHz channels may be applied or ignored".into(),
             "only the low nibble of the RxDelay octet is interpreted (the high nibble is RFU)".into(),
         ]
     }
